@@ -1004,3 +1004,39 @@ pub unsafe extern "C" fn fdopendir(fd: c_int) -> *mut libc::DIR {
         }
     }
 }
+
+// std::fs::copy tries copy_file_range and sendfile before falling back to a read/write loop.
+// The simulated disk only speaks read/write, so for simulated descriptors both say "not
+// supported here" and std takes the loop (whose writes are journalled like any others).
+#[no_mangle]
+pub unsafe extern "C" fn copy_file_range(fd_in: c_int, off_in: *mut i64, fd_out: c_int, off_out: *mut i64, len: size_t, flags: c_uint) -> ssize_t {
+    if in_sim() && (fake(fd_in) || fake(fd_out)) {
+        set_errno(libc::ENOSYS);
+        return -1;
+    }
+    match real!("copy_file_range", unsafe extern "C" fn(c_int, *mut i64, c_int, *mut i64, size_t, c_uint) -> ssize_t) {
+        Some(f) => f(fd_in, off_in, fd_out, off_out, len, flags),
+        None => libc::syscall(libc::SYS_copy_file_range, fd_in, off_in, fd_out, off_out, len, flags) as ssize_t,
+    }
+}
+
+macro_rules! sendfile_fn {
+    ($name:ident, $lit:literal) => {
+        #[no_mangle]
+        pub unsafe extern "C" fn $name(out_fd: c_int, in_fd: c_int, offset: *mut off_t, count: size_t) -> ssize_t {
+            if in_sim() && (fake(out_fd) || fake(in_fd)) {
+                set_errno(libc::ENOSYS);
+                return -1;
+            }
+            match real!($lit, unsafe extern "C" fn(c_int, c_int, *mut off_t, size_t) -> ssize_t) {
+                Some(f) => f(out_fd, in_fd, offset, count),
+                None => {
+                    set_errno(libc::ENOSYS);
+                    -1
+                }
+            }
+        }
+    };
+}
+sendfile_fn!(sendfile, "sendfile");
+sendfile_fn!(sendfile64, "sendfile64");
